@@ -102,6 +102,7 @@ def spec_call(ex, e, fr):
             bvs.append(bv)
             fr.bound[n] = Val(ty, bv)
         savedpc = len(ex.pc)
+        ex.binder_depth = getattr(ex, "binder_depth", 0) + 1
         try:
             body = ex.truth(ex.ev(lam.body, fr))
             patterns = []
@@ -111,6 +112,7 @@ def spec_call(ex, e, fr):
                 patterns.append(z3.MultiPattern(*ts) if len(ts) > 1 else ts[0])
         finally:
             fr.bound = saved
+            ex.binder_depth -= 1
         # type facts assumed while evaluating under the binder mention bound variables: drop them
         # (they are consequences of well-typedness assumed for the elements of stored lists)
         extra = ex.pc[savedpc:]
@@ -231,6 +233,8 @@ def is_none(v):
         return smt.is_fnone(v.t)
     if k == "oint":
         return smt.OINT.is_INone(v.t)
+    if k == "og":
+        return smt.OG.is_GNone(v.t)
     if v.ty.is_heap:
         return v.t == 0
     return z3.BoolVal(False)
@@ -348,3 +352,44 @@ def frame_obligations(ex, fr, con, heap0, alloc0, loc):
         may = z3.Or([c(o) for c in cs]) if cs else z3.BoolVal(False)
         goal = z3.Implies(z3.And(alloc0[o], z3.Not(may)), m_end[o] == m0[o])
         ex.oblige("frame", field, goal, con.tags | {"frame"}, loc, f"only declared objects change in field {field}")
+
+
+def invariant_at(ex, inv, o_term, fi_for_names=None):
+    """z3 Bool: invariant `inv` for object o_term in the current state"""
+    fr = Frame(fi_for_names, {"self": Val(Ty("ref", cls=inv.cls), o_term)}, None)
+    fr.spec = True
+    return clause(ex, inv.clause, fr)
+
+
+def assume_invariants(ex, fi, exclude=(), tag="pre"):
+    """all allocated objects satisfy their class invariants (visible-state semantics); objects in
+    `exclude` (the receivers of the methods currently executing) may be mid-update"""
+    for inv in spec.INVARIANTS:
+        o = z3.Const(f"io?{next(ex.cnt)}", REF)
+        mark = len(ex.pc)
+        body = invariant_at(ex, inv, o, fi)
+        extra = ex.pc[mark:]
+        del ex.pc[mark:]
+        ex.pc.extend(x for x in extra if not _mentions(x, [o]))
+        guard = [o != 0, ex.alloc[o], is_instance(o, inv.cls)] + [o != x for x in exclude]
+        ex.assume(z3.ForAll([o], z3.Implies(z3.And(guard), body), patterns=[typeof(o)]))
+
+
+def invariant_obligations(ex, fi, heap0, alloc0, loc, exclude=()):
+    for inv in spec.INVARIANTS:
+        o = ex.fresh("inv_o", REF)
+        mark = len(ex.pc)
+        body_end = invariant_at(ex, inv, o, fi)
+        sh, sa = ex.heap, ex.alloc
+        ex.heap, ex.alloc = dict(heap0), alloc0
+        try:
+            body_0 = invariant_at(ex, inv, o, fi)
+        finally:
+            for k, m in ex.heap.items():
+                sh.setdefault(k, m)
+            ex.heap, ex.alloc = sh, sa
+        del ex.pc[mark:]
+        if body_end.eq(body_0) and ex.alloc.eq(alloc0):
+            continue
+        guard = [o != 0, ex.alloc[o], is_instance(o, inv.cls)] + [o != x for x in exclude]
+        ex.oblige("class-inv", f"{inv.cls}.{inv.label}", z3.Implies(z3.And(guard), body_end), inv.tags, loc, inv.clause.text)
